@@ -1,4 +1,5 @@
 import SwcVerif.Props.C04
+import SwcVerif.Props.C04Gen
 #print axioms C04.traverse_eq_spec
 #print axioms C04.fuel_suffices
 #print axioms C04.outside_untouched
@@ -8,3 +9,8 @@ import SwcVerif.Props.C04
 #print axioms C04.specRev_length
 #print axioms C04.enterOrder_perm
 #print axioms C04.leaveOrder_perm
+#print axioms RefineTrav.traverse_refines
+#print axioms C04.generated_traverse_eq_spec
+#print axioms C04.generated_eq_model
+#print axioms C04.generated_enter_once
+#print axioms C04.generated_leave_once
